@@ -339,6 +339,8 @@ def sweep(fn, args, kind0, x0, rel=False, dist8=True):
             x = np.asarray(x, dtype=float)
             w = np.asarray(x0, dtype=float)
             tol = TOL * f * (np.abs(w) if rel else np.maximum(1.0, np.abs(w)))
+            if label == "float32":
+                tol = np.maximum(tol, 1e-33)  # single precision results: below ~1e-38 a linear value is denormal
             if x.shape != w.shape or not np.all(np.abs(x - w) <= tol):
                 j = int(np.argmax(np.abs(x - w) - tol)) if x.shape == w.shape and x.size else 0
                 return (f"argument {i} as {label} ({v.ravel()[j]!r}): returned {x.ravel()[j] if x.size else x!r}, "
